@@ -1,6 +1,7 @@
 (* C07 — property theorems only.  Statements are full; proofs are [exact lemma]. *)
 From Coq Require Import List NArith Bool.
 From LE Require Import BFT.Contradiction BFT.ContradictionProofs BFT.ForkChoice BFT.ForkChoiceProofs.
+Import ListNotations.
 Local Open Scope N_scope.
 
 Theorem C07_contradicting_sym : forall b1 b2, contradicting b1 b2 = contradicting b2 b1.
@@ -30,9 +31,35 @@ Theorem C07_follower_never_flagged : forall hs, follower hs ->
   forall b1 b2, In b1 hs -> In b2 hs -> b1 <> b2 -> contradicting b1 b2 = false.
 Proof. exact follower_never_flagged. Qed.
 
+(* LIP-0014 classification, order-free: [spec_cases] lists every case whose COMPLETE condition (ForkChoice.v [spec_conditions]:
+   each case spelled out on header fields and slot numbers, including what must not hold) is met; exactly one case applies, and
+   it is the one the evaluation order of Executer.process ([classify]) selects — the order of the tests is immaterial. *)
 Theorem C07_classify_lip14 : forall c last cur t_last t_cur,
-  classify c last cur t_last t_cur = lip14_case c last cur t_last t_cur.
-Proof. exact classify_matches_lip14. Qed.
+  spec_cases c last cur t_last t_cur = [classify c last cur t_last t_cur].
+Proof. exact spec_cases_singleton. Qed.
+Theorem C07_lip14_case_unique : forall c last cur t_last t_cur k,
+  In k (spec_cases c last cur t_last t_cur) <-> k = classify c last cur t_last t_cur.
+Proof. exact spec_case_unique. Qed.
+(* the slot number used by the tie-break conditions is plain floor division for timestamps not before genesis *)
+Theorem C07_slot_number_is_floor_division : forall c ts, genesis_ts c <= ts -> ts < 4294967296 ->
+  slot_number c ts = (ts - genesis_ts c) / interval c.
+Proof. exact slot_number_spec. Qed.
+
+(* API.HeaderHasPriority (version-2 headers) and Executer.Synced: "has priority over (height, maxHeightPrevoted)" is the strict
+   LIP-0014 order on (maxHeightPrevoted, height), the same order IsDifferentChain uses, read from the other side; two chains
+   neither of which has priority over the other have equal (maxHeightPrevoted, height). Version-0 (genesis) tip: both bounded
+   by its height. *)
+Theorem C07_priority_is_lip14_order : forall hm hh height mhp,
+  has_priority hm hh height mhp = true <-> lex_lt (mhp, height) (hm, hh).
+Proof. exact has_priority_is_lex. Qed.
+Theorem C07_priority_is_different_chain : forall hm hh height mhp,
+  has_priority hm hh height mhp = is_different_chain_raw mhp hm height hh.
+Proof. exact has_priority_is_different_chain. Qed.
+Theorem C07_priority_total : forall hm hh height mhp,
+  has_priority hm hh height mhp = false -> has_priority mhp height hh hm = false -> hm = mhp /\ hh = height.
+Proof. exact has_priority_total. Qed.
+Theorem C07_priority_v0 : forall hh height mhp, has_priority_v0 hh height mhp = true <-> height <= hh /\ mhp <= hh.
+Proof. exact has_priority_v0_spec. Qed.
 
 Theorem C07_different_chain_is_lex_order : forall lm cm lh ch,
   is_different_chain_raw lm cm lh ch = true <-> lex_lt (lm, lh) (cm, ch).
@@ -66,6 +93,16 @@ Theorem C07_window_complete : forall s b tip, vgood tip s -> h_height b = tip + 
   (exists x, In x (window s) /\ i_gen x = h_gen b /\ contradicting (bh_of_info x) (bh_of_hdr b) = true) ->
   chain_contradicting (s_votes s) b = true.
 Proof. exact contradicting_in_window_is_flagged. Qed.
+
+(* ... and the restriction to NEXT headers (height = tip + 1, which block verification checks first) is necessary: REFUTED for
+   headers at or below the tip — a second header of a generator at the height of its OLDER windowed header, legitimate with
+   respect to its newest one, is not reported (witness: 4 unit validators, validator 1 forges heights 1 and 3). *)
+From LE Require Import BFT.WindowRefuted.
+Theorem C07_window_complete_below_tip_refuted : exists s b tip,
+  vgood tip s /\ h_height b <= tip /\ h_mhp b = v_mhp (s_votes s) /\
+  (exists x, In x (window s) /\ i_gen x = h_gen b /\ contradicting (bh_of_info x) (bh_of_hdr b) = true) /\
+  chain_contradicting (s_votes s) b = false.
+Proof. exact window_complete_needs_next_height. Qed.
 
 Theorem C07_valid_chain_invariant : forall batch s x s1 tip, (0 < batch)%nat -> vgood tip s -> h_height (fst x) = tip + 1 ->
   bft_valid s (fst x) = true -> apply_block batch s x = Ok s1 -> vgood (tip + 1) s1.
